@@ -2,7 +2,7 @@
    (Gen/RedesignGen.v, regenerated on every run by harness/pygen_c17.py) equals the corresponding part of the hand-written
    model (Model/Redesign.v).  The model keeps exported numbers in lowest terms (a JSON number is a value): oqred / Qred
    around what the source exports as it is. *)
-From Coq Require Import QArith Lia.
+From Coq Require Import QArith Qminmax Lia Lqa.
 From Verif Require Import Prelude Model.Chain Model.Redesign Gen.RedesignGen.
 Open Scope Z_scope.
 
@@ -94,3 +94,75 @@ Theorem gen_estimate_params : forall st,
   let* after := set_params (Some save_nli) (Some save_raman) in
   Ok (during, after).
 Proof. reflexivity. Qed.
+
+(* ------------------------------------------------------------------ amplifier design arithmetic
+   (compute_gain_power_and_tilt_target, set_one_amplifier, set_amplifier_voa; SRS deviation 0; the model carries
+   D = prev_dp - prev_voa, hence == where the source associates the sum differently) *)
+Lemma Qmin_qmin : forall a b, Qmin a b = qmin a b.
+Proof.
+  intros a b. unfold Qmin, GenericMinMax.gmin, qmin.
+  destruct (Qle_bool a b) eqn:L; destruct (a ?= b)%Q eqn:E; try reflexivity; exfalso.
+  - apply Qle_bool_iff in L. apply Qgt_alt in E. lra.
+  - apply Qeq_alt in E. assert (H : (a <= b)%Q) by lra. apply Qle_bool_iff in H. congruence.
+  - apply Qlt_alt in E. assert (H : (a <= b)%Q) by lra. apply Qle_bool_iff in H. congruence.
+Qed.
+Lemma Qmax_qmax : forall a b, (Qmax a b == qmax a b)%Q.
+Proof.
+  intros a b. unfold Qmax, GenericMinMax.gmax, qmax.
+  destruct (Qle_bool a b) eqn:L; destruct (a ?= b)%Q eqn:E; try reflexivity.
+  - apply Qeq_alt in E. exact E.
+  - exfalso. apply Qle_bool_iff in L. apply Qgt_alt in E. lra.
+  - exfalso. apply Qlt_alt in E. assert (H : (a <= b)%Q) by lra. apply Qle_bool_iff in H. congruence.
+Qed.
+Lemma qmin_compat : forall a x y, (x == y)%Q -> (qmin a x == qmin a y)%Q.
+Proof.
+  intros a x y H. unfold qmin. rewrite (Qleb_comp a a (Qeq_refl a) x y H).
+  destruct (Qle_bool a y); [reflexivity | exact H].
+Qed.
+
+Theorem gen_amp_dp0 : forall s x a,
+  amp_dp0 s x a =
+  match i_dp a with
+  | None => g_dp_rule (target_power s (x_next x)) (otru (i_voa a))
+  | Some u => g_dp_user u
+  end.
+Proof. reflexivity. Qed.
+
+Definition power_mode_targets (gd : Q * Q) (loss dp0 prev_dp prev_voa inv : Q) : Prop :=
+  (fst gd == g_gain_pm loss 0 dp0 prev_dp prev_voa inv)%Q /\ snd gd = dp0.
+
+Theorem gen_amp_gd : forall s prev_dp prev_voa x a,
+  let gd := amp_gd s (prev_dp - prev_voa) x a in
+  let dp0 := amp_dp0 s x a in
+  let inv := otru (i_invoa a) in
+  match i_gain a with
+  | Some g =>
+      if s_pm s then power_mode_targets gd (x_loss x) dp0 prev_dp prev_voa inv
+      else fst gd = g /\ (snd gd == g_dp_gm prev_dp (x_loss x) 0 prev_voa g inv)%Q
+  | None => power_mode_targets gd (x_loss x) dp0 prev_dp prev_voa inv
+  end.
+Proof.
+  intros s prev_dp prev_voa x a. unfold amp_gd, power_mode_targets, g_gain_pm, g_dp_gm.
+  destruct (i_gain a) as [g|]; [destruct (s_pm s)|]; cbn [fst snd]; split; try reflexivity; ring.
+Qed.
+
+Theorem gen_amp_pr : forall s prev_dp prev_voa x a b gd, String.eqb (i_var a) "" = false ->
+  (amp_pr s (prev_dp - prev_voa) x a b gd ==
+   if s_pm s then g_red_pm (b_pmax b) (x_ptot x) (snd gd)
+   else g_red_gm (b_pmax b) (x_ptot x) prev_dp (x_loss x) prev_voa (fst gd))%Q.
+Proof.
+  intros s prev_dp prev_voa x a b gd H. unfold amp_pr. rewrite H.
+  destruct (s_pm s); unfold g_red_pm, g_red_gm; rewrite Qmin_qmin; [reflexivity|].
+  apply qmin_compat. ring.
+Qed.
+
+Theorem gen_amp_voa : forall s x a b gd pr, i_voa a = None -> s_pm s && b_vauto b = true ->
+  (fst (amp_voa s x a b gd pr) == g_auto_voa s (b_pmax b) (b_gfm b) (g_power_target (x_ptot x) (snd gd)) (fst gd + pr))%Q /\
+  snd (amp_voa s x a b gd pr) = fst (amp_voa s x a b gd pr).
+Proof.
+  intros s x a b gd pr H1 H2. unfold amp_voa. rewrite H1, H2. cbn [fst snd]. split; [|reflexivity].
+  unfold g_auto_voa, g_power_target, round2float, c_voa_step, c_voa_margin. rewrite !Qmin_qmin.
+  symmetry. apply Qmax_qmax.
+Qed.
+Theorem gen_amp_voa_user : forall s x a b gd pr v, i_voa a = Some v -> amp_voa s x a b gd pr = (v, 0%Q).
+Proof. intros s x a b gd pr v H. unfold amp_voa. rewrite H. reflexivity. Qed.
